@@ -54,6 +54,10 @@ P = {
   "One composite world reaches a remote module statically / dynamically / as text asset / behind a redirect / as declaration / with BOM / with invalid UTF-8, a jsr: package with a sub-path, and an https URL into the registry as module and as asset. Every assignment of lockfile state x served bytes to the 11 resources (+ manifests, redirecting URL, embedded module graph, cache probe) inside the deviation bound is built with the real builder under a checksum-verifying loader; a monitor over the Loader and Locker call logs decides presentation, admission, retries, redirect rejection and recording.",
   "The scripted loader verifies presented checksums like a real cache. prefer_cached_jsr_versions is off. One world; assignments bounded by deviations from all-honest/empty-lockfile.",
   "DESIGN.md §4 C05", TECH + "; deviation-bounded enumeration of lockfile x tamper assignments with a call-log monitor"),
+ "C01": (True,
+  "Every world inside the bound (deviation-bounded generic worlds over all entry kinds, 20 import forms, special targets, attributes, redirects, local/remote, types header; plus the complete enumeration of core-alphabet worlds with <= 3 edges) is built under 3 graph kinds x 3 option sets and compared with (1) reference rules deriving each module's recorded dependencies from the renderer's record of what it wrote, (2) the least closure of the roots under the follow rules, computed over the reference dependencies, (3) the loader call log (single content load per specifier, redirects recorded), (4) entry kinds fixed by the world.",
+  "The reference rules (about 25, each mirroring a sentence of the statement and anchored in graph.rs) are part of the trusted base; default resolution only (no custom resolver / npm resolver / jsr passthrough). Worlds outside the same-attribute proviso are not generated; redirect cycles are C14's.",
+  "DESIGN.md §4 C01", TECH + "; deviation-bounded + complete core enumeration of module worlds against a reference model of declared dependencies and closure"),
 }
 
 ALL = ["C%02d" % i for i in range(1, 21)]
